@@ -19,6 +19,7 @@ def check(rr) -> list:
     out += C.check_client_histories(rr)
     out += failures_reported(rr, info)
     out += isolation(rr, info)
+    _probes(rr, info)
     if not C.hung(rr):
         out += C.check_observations(rr)
         relaxed = set()
@@ -164,3 +165,43 @@ def isolation(rr, info) -> list:
                                    f'client {owner.get(nid)}\'s task: '
                                    f'{m.group(0)}'))
     return out
+
+
+def _probes(rr, info) -> None:
+    """Evidence only: which (request, task state) pairs and which raise
+    positions were reached."""
+    def add(k):
+        info[k] = info.get(k, 0) + 1
+    addr_of = {}
+    for r in rr.rec:
+        if r[1] == 'start' and r[3][1] is not None:
+            addr_of[r[2]] = tuple(r[3][1])
+        elif r[1] == 'raise' and r[2] in addr_of:
+            d = len(C.ancestors_or_self(rr, addr_of[r[2]]))
+            add(f'reach.raise_at_depth.{min(d, 5)}')
+    for ci, c in enumerate(rr.clients):
+        state = {}
+        for h in c['history']:
+            if h['i'] < 0 or not isinstance(h['op'], dict):
+                continue
+            op = h['op']
+            k = op.get('op')
+            if k == 'submit':
+                if h['kind'] == 'ok':
+                    state[op['as']] = 'live'
+                continue
+            if k not in ('status', 'result', 'cancel'):
+                continue
+            t = op.get('t')
+            if t == 'unknown':
+                cat = 'unknown-id'
+            elif isinstance(t, str) and ':' in t:
+                cat = 'foreign'
+            else:
+                cat = state.get(t, 'never-submitted')
+            add(f'reach.request.{k}.{cat}.{h["kind"]}')
+            if h['kind'] == 'ok':
+                if k == 'result' and cat == 'live':
+                    state[t] = 'delivered'
+                elif k == 'cancel' and cat == 'live':
+                    state[t] = 'cancelled'
